@@ -11,6 +11,7 @@ UNITS = {
     "c15_daemon": dict(pkg="./daemon", tags="default_build", unshare=True),
     "c15_webhook": dict(pkg="./pkg/controller/webhook", tags="default_build"),
     "c15_podctl": dict(pkg="./pkg/controller/pod", tags="default_build"),
+    "c15_status": dict(pkg="./pkg/controller/status", tags="default_build"),
     "c15_podeni": dict(pkg="./pkg/controller/pod-eni", tags="default_build"),
 }
 
@@ -35,6 +36,8 @@ PROPS = {
             dict(unit="c15_k8s", test="TestVerifC15PodStore", quick=8000, thorough=400000),
             dict(unit="c15_controlplane", test="TestVerifC15PodNetworksAnnotation", quick=16000, thorough=2000000),
             dict(unit="c15_podeni", test="TestVerifC15NumaHints", quick=12000, thorough=2000000),
+            dict(unit="c15_podeni", test="TestVerifC15ENIIndex", quick=8000, thorough=400000),
+            dict(unit="c15_status", test="TestVerifC15CardSelection", quick=8000, thorough=1000000),
             dict(unit="c15_typesdaemon", test="TestVerifC15DaemonConfig", quick=16000, thorough=1000000),
             dict(unit="c15_types", test="TestVerifC15IPHelpers", quick=16000, thorough=2000000),
             dict(unit="c15_plugin", test="TestVerifC15CNIPlugin", quick=12000, thorough=1000000),
